@@ -44,7 +44,7 @@ def run_reachable(A: Analysis) -> List[FunctionInfo]:
             dead.update(m.fq for m in A.prog.classes[c].methods.values())
     dead.add("conductor.utils.tee.TeeProcessor._tee_pipe_run")
     # the other sub-commands share cli_command but are not part of `cond run`
-    for f in A.prog.functions.values():
+    for f in A.prog.scan_functions:
         if "cli_command" in f.decorators and f.fq != "conductor.cli.run.main":
             dead.add(f.fq)
     reach = A.cg.reachable(["conductor.cli.run.main", "conductor.utils.user_code.cli_command.command_main"], stop=dead)
@@ -386,3 +386,83 @@ def rule_sg5(A: Analysis, rep):
     rep.check(not offenders, "SG5", "no commit on the abort path", None, "no abort handler (transitively) records or commits a version", "abort handlers in %s reach an index write/commit" % offenders)
     # tee shutdown in start_execution's handler only when output is recorded (kept as is)
     rep.expect_min("SG5", 4)
+
+
+# calls inside an abort clause that are allowed to raise (frozen, one line of reason each)
+SG10_ALLOW = {
+    ("_launch_ops_if_able", "conductor.execution.executor._InflightOperations.add_op", "AssertionError"):
+        "add_op asserts `handle.pid is not None` only for asynchronous handles, which carry a pid by construction (from_async_process)",
+}
+
+
+def rule_sg10(A: Analysis, rep):
+    """An exception raised inside an abort clause *replaces* the ConductorAbort: the outer clauses
+    (run_plan's terminate_processes, cli_command's report) are then skipped.  Below run_plan, every call
+    made in an abort clause before the re-raise must therefore be unable to raise (typed summaries), or be
+    enclosed in a handler for what it raises."""
+    n = 0
+    # only code that runs while task processes may exist: reachable from run_plan's tracked region
+    rf = A.fn(EXE + "Executor.run_plan")
+    withs = [w for w in walk_local(rf.node) if isinstance(w, ast.With) and any(A.calls_in(it.context_expr, "SigchldHelper.track") for it in w.items)]
+    if len(withs) != 1:
+        raise AnalysisError("SG10: tracked region of run_plan not found")
+    inst = instantiated_ops(A)
+    dead = set()
+    for c_ in A.prog.subclasses(OPERATION, strict=True):
+        if c_ not in inst:
+            dead.update(m.fq for m in A.prog.classes[c_].methods.values())
+    roots = set()
+    for st in withs[0].body:
+        for sub in walk_local(st):
+            if isinstance(sub, ast.Call):
+                for (c_, exp) in A.cg.sites[rf.fq]:
+                    if c_ is sub:
+                        roots.update(exp)
+    region = A.cg.reachable(sorted(roots), stop=dead)
+    for f in run_reachable(A):
+        if f.fq in SINKS or f.fq.endswith("Executor.run_plan") or f.fq not in region:
+            continue
+        for t in walk_local(f.node):
+            if not isinstance(t, ast.Try):
+                continue
+            h = abort_clause(A, t)
+            if h is None:
+                continue
+            n += 1
+            offenders = []
+            for c in walk_local(h):
+                if not isinstance(c, ast.Call):
+                    continue
+                # enclosed by a nested try (inside the clause) that catches what it raises?
+                for callee in A.res.callees(c):
+                    raised = set(A.exc._callee_raises(callee))
+                    for ty in sorted(raised):
+                        if ty == ABORT:
+                            continue
+                        caught = False
+                        for anc in _anc(c):
+                            if anc is h:
+                                break
+                            if isinstance(anc, ast.Try) and id(c) in {id(x) for b in anc.body for x in ast.walk(b)}:
+                                for hh in anc.handlers:
+                                    types = None
+                                    if hh.type is not None:
+                                        exprs = hh.type.elts if isinstance(hh.type, ast.Tuple) else [hh.type]
+                                        types = [A.prog.resolve_name_expr(e._module, e) or norm(e) for e in exprs]
+                                    if catches(A.prog, types, ty) == "yes":
+                                        caught = True
+                        if caught:
+                            continue
+                        if (f.name, callee, ty.rsplit(".", 1)[-1]) in SG10_ALLOW:
+                            continue
+                        offenders.append((c, callee, ty))
+            if offenders:
+                c, callee, ty = offenders[0]
+                rep.bad("SG10", "abort clause of %s cannot be derailed" % f.fq.replace("conductor.", ""), c,
+                        "`%s` can raise %s inside the abort clause: that exception would replace the ConductorAbort, run_plan's handler would not run "
+                        "(running tasks keep running) and Conductor would die with an internal error" % (norm(c)[:60], ty.rsplit(".", 1)[-1]),
+                        key="SG10|%s" % f.name)
+            else:
+                rep.ok("SG10", "abort clause of %s cannot be derailed" % f.fq.replace("conductor.", ""), h,
+                       "no call before the re-raise can raise (typed exception summaries; %d allow-table entries)" % len(SG10_ALLOW))
+    rep.expect_min("SG10", 3)
